@@ -325,3 +325,93 @@ Qed.
 
 Lemma rt_type_top : forall pv t rest, wf_type pv t = true -> rd_type_top (enc_type t ++ rest) = Some (t, rest).
 Proof. intros. unfold rd_type_top. eapply rt_type; [eassumption|]. rewrite app_length. lia. Qed.
+
+(* ------------------------------------------------------------------ monad laws used for sequencing *)
+Lemma pbind_ret : forall {A B} (a : A) (f : A -> P B) l, pbind (ret a) f l = f a l.
+Proof. reflexivity. Qed.
+
+Lemma pbind_assoc : forall {A B C} (p : P A) (f : A -> P B) (g : B -> P C) l,
+  pbind (pbind p f) g l = pbind p (fun x => pbind (f x) g) l.
+Proof. intros. unfold pbind. destruct (p l) as [[a l']|]; reflexivity. Qed.
+
+Ltac pnorm := cbv beta iota delta [rd_opt]; repeat (rewrite pbind_assoc || rewrite pbind_ret); cbv beta.
+Ltac has_test :=
+  repeat (match goal with
+          | |- context [has ?a ?b] =>
+            let v := eval vm_compute in (has a b) in
+            match v with true => idtac | false => idtac end; change (has a b) with v
+          end).
+Ltac step' L := pnorm; erewrite pbind_some by (apply L; side); cbv beta; pnorm.
+
+(* ------------------------------------------------------------------ column specifications *)
+Lemma rt_colspecs_global : forall pv ks tb cols rest,
+  forallb (fun c => wf_string (fst c) && wf_type pv (snd c)) cols = true ->
+  rd_colspecs (Some (ks, tb)) (len cols) (enc_list (fun c => enc_string (fst c) ++ enc_type (snd c)) cols ++ rest)
+  = Some (map (fun c => mkcol ks tb (fst c) (snd c)) cols, rest).
+Proof.
+  intros. unfold rd_colspecs. apply rt_count. intros [n t] r Hin. cbn [fst snd]. rewrite <- app_assoc.
+  pose proof (forallb_In _ _ _ H Hin) as W. cbn [fst snd] in W. apply andb_prop in W. destruct W as [W1 W2].
+  step' rt_string. erewrite pbind_some by (eapply rt_type_top; eassumption). reflexivity.
+Qed.
+
+Lemma rt_colspecs_each : forall pv cols rest,
+  forallb (fun c => wf_string (c_ks c) && wf_string (c_tbl c) && wf_string (c_name c) && wf_type pv (c_type c)) cols = true ->
+  rd_colspecs None (len cols)
+    (enc_list (fun c => enc_string (c_ks c) ++ enc_string (c_tbl c) ++ enc_string (c_name c) ++ enc_type (c_type c)) cols ++ rest)
+  = Some (cols, rest).
+Proof.
+  intros. unfold rd_colspecs. rewrite (rt_count _ _ (fun c => c)); [rewrite map_id; reflexivity|]. intros [k t n ty] r Hin.
+  cbn [c_ks c_tbl c_name c_type]. repeat rewrite <- app_assoc.
+  pose proof (forallb_In _ _ _ H Hin) as W. cbn [c_ks c_tbl c_name c_type] in W.
+  apply andb_prop in W. destruct W as [W W4]. apply andb_prop in W. destruct W as [W W3]. apply andb_prop in W. destruct W as [W1 W2].
+  step' rt_string. step' rt_string. step' rt_string. erewrite pbind_some by (eapply rt_type_top; eassumption). reflexivity.
+Qed.
+
+(* <global_table_spec>?<col_spec>* read back under the flag the encoder set, with any continuation K *)
+Lemma rt_glob_cols : forall {B} pv cs flags rest (K : list colspec -> P B),
+  wf_cols pv cs = true -> has flags 1 = cols_global cs ->
+  (glob <- rd_glob flags ;; cols <- rd_colspecs glob (cols_count cs) ;; K cols) (enc_cols cs ++ rest) = K (cols_list cs) rest.
+Proof.
+  intros B pv cs flags rest K W G. unfold rd_glob. rewrite G. unfold wf_cols in W. apply andb_prop in W. destruct W as [Wc W].
+  destruct cs as [ks tb cols|cols]; cbn [cols_global cols_count cols_list enc_cols].
+  - apply andb_prop in W. destruct W as [W W3]. apply andb_prop in W. destruct W as [W1 W2].
+    repeat rewrite <- app_assoc. step' rt_string. step' rt_string.
+    erewrite pbind_some by (eapply rt_colspecs_global; eassumption). reflexivity.
+  - pnorm. erewrite pbind_some by (eapply rt_colspecs_each; eassumption). reflexivity.
+Qed.
+
+Lemma flags_has : forall g p n i,
+  let f := b2z g 1 + b2z p 2 + b2z n 4 + b2z i 8 in
+  has f 1 = g /\ has f 2 = p /\ has f 4 = n /\ has f 8 = i /\ has f 1073741824 = false /\ wf_int f = true.
+Proof. intros [] [] [] []; vm_compute; repeat split; reflexivity. Qed.
+
+Lemma rt_rmeta : forall pv m rest, wf_rmeta pv m = true ->
+  rd_results_metadata (enc_rmeta m ++ rest) = Some (exact_rmeta m, rest).
+Proof.
+  intros pv [paging newid cols] rest W. unfold wf_rmeta in W. cbn [rm_paging rm_new_id rm_cols] in W.
+  apply andb_prop in W. destruct W as [W W3]. apply andb_prop in W. destruct W as [W1 W2].
+  unfold rd_results_metadata, enc_rmeta, exact_rmeta. cbn [rm_paging rm_new_id rm_cols mo_paging].
+  match goal with |- context [enc_int (b2z ?g 1 + b2z ?p 2 + b2z ?n 4 + b2z ?i 8)] =>
+    destruct (flags_has g p n i) as [F1 [F2 [F4 [F8 [FC FW]]]]]; cbv zeta in *;
+    set (flags := b2z g 1 + b2z p 2 + b2z n 4 + b2z i 8) in * end.
+  repeat rewrite <- app_assoc. step' rt_int.
+  assert (Wcount : wf_int (match cols with McNone n => n | McSome cs => cols_count cs end) = true).
+  { destruct cols as [n|cs]; [apply andb_prop in W3; tauto|]. unfold wf_cols in W3. apply andb_prop in W3. tauto. }
+  step' rt_int. rewrite F2, F4.
+  assert (Hp : forall {B} (K : option bytes -> P B) r,
+             (x <- (if is_some paging then (y <- rd_blong ;; ret (Some y)) else ret None) ;; K x)
+               (match paging with Some p => enc_bytes (Some p) | None => [] end ++ r) = K paging r).
+  { intros B K r. destruct paging as [p|]; cbn [is_some].
+    - step' rt_blong. reflexivity.
+    - reflexivity. }
+  rewrite Hp. clear Hp.
+  destruct cols as [n|cs].
+  - cbv iota. rewrite app_nil_l. apply andb_prop in W3. destruct W3 as [_ W3].
+    destruct newid; [discriminate W3|]. reflexivity.
+  - cbv iota. rewrite FC, F8. pnorm.
+    destruct newid as [i|]; cbn [is_some].
+    + apply andb_prop in W2. destruct W2 as [W2 _]. repeat rewrite <- app_assoc. step' rt_bstring.
+      rewrite (rt_glob_cols pv cs flags rest); [reflexivity|assumption|exact F1].
+    + pnorm. rewrite app_nil_l.
+      rewrite (rt_glob_cols pv cs flags rest); [reflexivity|assumption|exact F1].
+Qed.
